@@ -4,6 +4,7 @@ real macro; trait-resolution probes (`Ty: Into<X>` as a run-time bool) for reque
 un-requested X; oracle: python selection rule (marker -> sole field -> unique same-typed field)
 and conversion model (custom method / unchanged / Into)."""
 import json
+import re
 
 from .. import behave as BH
 from .. import gen as G
@@ -131,6 +132,165 @@ def judge(chk, c, obs, dropped):
                    limit=3)
 
 
+# ---- second family: structurally rich target types, spelled with different spacing at the attribute and at the field
+# (type text variants), value expression of a field at position i, is Copy
+RICH = [
+    (["Vec<Vec<u8>>", "Vec<Vec<u8> >", "Vec < Vec < u8 > >"], "vec![vec![{i}u8]]"),
+    (["Option<&'static str>", "Option<& 'static str>", "Option < &'static str >"], "Some([\"a\", \"b\", \"c\", \"d\", \"e\", \"f\", \"g\", \"h\", \"i\", \"j\"][{i}])"),
+    (["&'static str", "& 'static str"], "[\"p\", \"q\", \"r\", \"s\", \"t\", \"u\", \"v\", \"w\", \"x\", \"y\"][{i}]"),
+    (["(u8, u16)", "(u8,u16)", "( u8 , u16 )"], "({i}u8, {i}u16 + 300)"),
+    (["[u8; 2]", "[u8;2]", "[ u8 ; 2 ]"], "[{i}u8, 9]"),
+    (["::std::string::String", ":: std :: string :: String"], "::std::string::String::from([\"sa\", \"sb\", \"sc\", \"sd\", \"se\", \"sf\", \"sg\", \"sh\", \"si\", \"sj\"][{i}])"),
+    (["Box<[u16]>", "Box<[ u16 ]>", "Box < [u16] >"], "vec![{i}u16, 7].into_boxed_slice()"),
+    (["Option<Option<u32>>", "Option<Option<u32> >"], "Some(Some({i}u32))"),
+    (["Vec<G>", "Vec < G >"], "vec![<G as ::core::convert::From<u8>>::from({i}u8)]"),
+    (["Option<G>", "Option < G >"], "Some(<G as ::core::convert::From<u8>>::from({i}u8 + 40))"),
+    (["[G; N]", "[G;N]", "[ G ; N ]"], "[<G as ::core::convert::From<u8>>::from({i}u8 + 80); N]"),
+    (["&'a [G]", "& 'a [G]", "&'a [ G ]"], "::core::slice::from_ref({leak}(<G as ::core::convert::From<u8>>::from({i}u8 + 120)))"),
+    (["u64", "u64"], "{i}u64 + 1000"),
+    (["i128", "i128"], "-({i}i128)"),
+]
+DECOY = [("bool", "true"), ("char", "'x'"), ("f32", "1.5f32"), ("()", "()"), ("u32", "{i}u32"), ("Vec<u8>", "vec![{i}u8]")]
+
+
+def rich_case(seed, k):
+    rng = rng_for(seed, PROP, "rich", k)
+    nt = rng.randint(1, 3)
+    while True:
+        picks = rng.sample(range(len(RICH)), nt)
+        heads = [RICH[p][0][0] for p in picks]
+        # impls for two targets must not overlap (coherence): a target mentioning G excludes whatever it unifies with
+        if "Vec<G>" in heads and "Vec<Vec<u8>>" in heads:
+            continue
+        if "Option<G>" in heads and any(h.startswith("Option<") and h != "Option<G>" for h in heads):
+            continue
+        if "[G; N]" in heads and "[u8; 2]" in heads or False:
+            continue
+        break
+    uses = lambda s: any(re.search(r"(?<![A-Za-z0-9_'])%s(?![A-Za-z0-9_])" % s, RICH[p][0][0]) for p in picks)
+    need_g, need_n, need_a = uses("G"), uses("N"), any("'a" in RICH[p][0][0] for p in picks)
+    params = (["'a"] if need_a else []) + (["G"] if need_g else []) + (["const N: usize"] if need_n else [])
+    decl = "<%s>" % ", ".join(params) if params else ""
+    if need_g:
+        decl = decl.replace("G", "G: ::core::fmt::Debug + ::core::convert::From<u8> + ::core::marker::Copy" + (" + 'a" if need_a else ""), 1)
+    inst = "<%s>" % ", ".join((["'static"] if need_a else []) + (["u64"] if need_g else []) + (["3"] if need_n else [])) if params else ""
+    enum = rng.random() < 0.5
+    nvar = rng.randint(1, 3) if enum else 1
+    variants = []
+    for vi in range(nvar):
+        named = rng.random() < 0.5
+        fields = []  # (type text, value template, designation for target index or None, marker?)
+        sole = nt == 1 and rng.random() < 0.2
+        for ti, p in enumerate(picks):
+            sp, val = RICH[p]
+            marker = (not sole) and rng.random() < 0.4
+            fields.append({"ty": rng.choice(sp), "val": val, "tgt": ti, "marker": marker})
+            if marker and rng.random() < 0.6:
+                # a same-typed decoy that the marker must win against
+                fields.append({"ty": rng.choice(sp), "val": val, "tgt": None, "marker": False})
+        if not sole:
+            for _ in range(rng.randint(0, 2)):
+                ty, val = rng.choice(DECOY)
+                fields.append({"ty": ty, "val": val, "tgt": None, "marker": False})
+        rng.shuffle(fields)
+        for i, f in enumerate(fields):
+            f["i"] = i
+            f["name"] = "f%d" % i if named else None
+        variants.append({"name": "V%d" % vi, "named": named, "fields": fields})
+    tgt_sp = [rng.choice(RICH[p][0]) for p in picks]
+
+    def into_attr(ti, sp):
+        return "Into(%s)" % sp
+    type_attrs = [into_attr(ti, sp) for ti, sp in enumerate(tgt_sp)]
+    rng.shuffle(type_attrs)
+    if rng.random() < 0.5:
+        head = "#[educe(%s)]\n" % ", ".join(type_attrs)
+    else:
+        head = "".join("#[educe(%s)]\n" % a for a in type_attrs)
+
+    def fdecl(f):
+        a = ""
+        if f["marker"]:
+            a = "#[educe(Into(%s))] " % rng.choice(RICH[picks[f["tgt"]]][0])
+        return "%s%s%s" % (a, ("pub %s: " % f["name"]) if f["name"] else "pub ", f["ty"])
+    if not enum:
+        v = variants[0]
+        if v["named"]:
+            body = "pub struct Ty%s {\n%s}\n" % (decl, "".join("    %s,\n" % fdecl(f) for f in v["fields"]))
+        else:
+            body = "pub struct Ty%s(\n%s);\n" % (decl, "".join("    %s,\n" % fdecl(f) for f in v["fields"]))
+    else:
+        vs = []
+        for v in variants:
+            fl = "".join("        %s,\n" % fdecl(f).replace("pub ", "") for f in v["fields"])
+            vs.append("    %s %s\n%s    %s,\n" % (v["name"], "{" if v["named"] else "(", fl, "}" if v["named"] else ")"))
+        body = "pub enum Ty%s {\n%s}\n" % (decl, "".join(vs))
+    text = "#[derive(::educe::Educe)]\n" + head + body
+    # constructor + drive: the expected value is built by the same expression the designated field was built with
+    leak = "%sleak" % RT
+    gl = []
+    drive = []
+    fnparams = decl.replace("::core::marker::Copy", "::core::marker::Copy + 'static")
+    ty = "Ty" + ("<%s>" % ", ".join(p.split(":")[0].replace("const ", "").strip() for p in params) if params else "")
+    for vi, v in enumerate(variants):
+        exprs = [f["val"].format(i=f["i"] + 1, leak=leak) for f in v["fields"]]
+        path = "Ty::%s" % v["name"] if enum else "Ty"
+        if v["named"]:
+            ctor = "%s { %s }" % (path, ", ".join("%s: %s" % (f["name"], e) for f, e in zip(v["fields"], exprs)))
+        else:
+            ctor = "%s(%s)" % (path, ", ".join(exprs))
+        gl.append("pub fn mk%d%s() -> %s { %s }\n" % (vi, fnparams, ty, ctor))
+        for ti, p in enumerate(picks):
+            des = [f for f in v["fields"] if f["tgt"] == ti]
+            assert len(des) == 1
+            f = des[0]
+            tt = RICH[p][0][0]
+            gl.append("pub fn want%d_%d%s() -> %s { %s }\n" % (vi, ti, fnparams, tt, f["val"].format(i=f["i"] + 1, leak=leak)))
+            inner = ("::<%s>" % ", ".join((["G"] if need_g else []) + (["N"] if need_n else []))) if (need_g or need_n) else ""
+            gl.append("pub fn got%d_%d%s() -> %s { ::core::convert::Into::into(mk%d%s()) }\n" % (vi, ti, fnparams, tt, vi, inner))
+            turbofish = ("::" + "<%s>" % ", ".join((["u64"] if need_g else []) + (["3"] if need_n else []))) if (need_g or need_n) else ""
+            drive.append("        %sbegin(); %sobs(\"r%d\", \"rich\", %d, %d, &format!(\"{:?}|{:?}\", got%d_%d%s(), want%d_%d%s()));"
+                         % (RT, RT, k, vi, ti, vi, ti, turbofish, vi, ti, turbofish))
+    glue = "".join(gl)
+    c = BH.Case("r%d" % k, None, text, [], glue=glue, drive="\n".join(drive),
+                info={"rich": True, "n": nvar * nt, "targets": [RICH[p][0][0] for p in picks], "enum": enum})
+    from .. import harness as H
+    c.module = lambda c=c: H.module(c.cid, c.text + c.glue +
+                                    "pub fn run() {\n    %sguarded(\"%s\", || {\n%s\n    });\n}\n" % (RT, c.cid, c.drive))
+    return c
+
+
+def judge_rich(chk, c, obs, dropped):
+    if c.cid in dropped:
+        d = dropped[c.cid][0]
+        chk.violation("rich-target-refused|%s" % (d.get("code") or d["message"][:50]),
+                      "a request whose target types are spelled with different spacing than the field types does not compile:\n%s\n%s"
+                      % (d.get("rendered") or d["message"], c.text), {"case.rs": c.module()})
+        return
+    o = obs.get(c.cid)
+    if o is None or not o.began:
+        chk.inconc("not-run")
+        return
+    files = {"case.rs": c.module()}
+    if o.panic is not None or not o.ended:
+        chk.violation("panic|" + (o.panic or "abort")[:60], "into panicked/aborted: %s\n%s" % (o.panic, c.text), files)
+        return
+    if len(o.recs) != c.info["n"]:
+        chk.inconc("incomplete-output")
+        return
+    for op, i, j, res, ev in o.recs:
+        got, want = res[0].split("|", 1)
+        if got != want:
+            chk.violation("into-value|rich|%s" % c.info["targets"][j], "x.into::<%s>() of variant %d is %s, the designated field holds %s\n%s"
+                          % (c.info["targets"][j], i, got, want, c.text), files)
+            return
+    chk.held(digest(c.text), True, len(o.recs))
+    chk.count("rich/%s/targets=%d" % ("enum" if c.info["enum"] else "struct", len(c.info["targets"])))
+    chk.sample({"case": c.cid, "source": c.text, "targets": c.info["targets"],
+                "history_excerpt": ["variant %d target %d: got|want = %s" % (i, j, res[0]) for op, i, j, res, ev in o.recs[:3]]},
+               limit=5)
+
+
 def main(tier, seed, scale=1.0):
     chk = Check(PROP, tier, seed)
     n = int((320 if tier == "quick" else 25000) * scale)
@@ -143,9 +303,10 @@ def main(tier, seed, scale=1.0):
     batch = 640
     for k0 in range(0, n, batch):
         cases = [gen_case(seed, k, cap) for k in range(k0, min(n, k0 + batch))]
+        cases += [rich_case(seed, k) for k in range(k0 // 2, min(n, k0 + batch) // 2)]
         obs, dropped, crashed, _, _ = BH.execute("c10", cases)
         for b, (rc, err) in crashed.items():
             log("C10: binary %s exited with %s: %s" % (b, rc, err[-500:]))
         for c in cases:
-            judge(chk, c, obs, dropped)
+            (judge_rich if c.info.get("rich") else judge)(chk, c, obs, dropped)
     return chk.finish()
